@@ -72,10 +72,11 @@ Definition simple_match (m o : list (Z * cell)) : bool :=
                      | None => false
                      end) m.
 
-(* stage 6: string cells of every character except NUL and CR (a CR is rewritten by the universal-newlines
-   text mode of the readers; csv before Python 3.11 rejects NUL): control characters, the line boundaries of
-   str.splitlines (LF VT FF FS GS RS NEL LS PS), non-ASCII text as its UTF-8 bytes *)
-Definition char_ok (c : ascii) : bool := negb ((code c =? 0) || (code c =? 13)).
+(* stage 6: string cells of every character except NUL (csv before Python 3.11 rejects it): control characters,
+   the line boundaries of str.splitlines (LF VT FF FS GS RS NEL LS PS; CR and CR LF, which the readers keep once
+   they open the file with newline='' -- the generator draws CR only when that repair is in the tree),
+   non-ASCII text as its UTF-8 bytes *)
+Definition char_ok (c : ascii) : bool := negb (code c =? 0).
 Definition text_ok (s : string) : bool := forallb char_ok (s2l s).
 Definition cell_text_ok (v : value) : bool := match v with VStr s => text_ok s | _ => true end.
 (* int() / float() reject every string holding a character that is neither white space, a decimal digit, a
